@@ -509,6 +509,9 @@ PROPS["C18"] = dict(mc=_py_mc(), record=True, trace="Trace_Py", shards=12, packa
 
 
 PROPS["C06"] = dict(
+    # scanners created through the Python bindings that outlive every other reference to their matrix and sequence (the
+    # hits must still be those of the original objects; a crash of the interpreter is reported as a violation)
+    also_record=[dict(package="lmpyconform", mode="C06", trace="Trace_Py", shards=2, tag="py")],
     mc=[
         dict(name="MC_Mem", module="MC_Mem", invariants=["EncodeIn", "StripeIn", "StripeFast", "ScoreIn"],
              constants=dict(Guarded=True), quick=dict(MaxL=2200), thorough=dict(MaxL=9000)),
